@@ -17,6 +17,13 @@ NA = {
 
 # property -> check description; filled in as units are built
 CHECKS = {
+    "C13": {
+        "category": "fault_enumeration",
+        "technique": "Kani on the real Command::spawn with a ghost process role in the stub kernel (fork: error/child/parent, exec only fails, exit ends the path after an at-exit contract check); every syscall on both sides symbolically failing",
+        "text": "Bounded, partial: with every system call before and after the fork independently failing with any errno or succeeding, (1) spawn never returns in the child process; (2) a child whose dup2/chdir/setuid/setgid/setpgid/execve fails reports errno_be ++ NOEX carrying that step's positive errno through the sync pipe and exits; (3) the parent returns Ok iff its first non-EINTR read of the sync pipe returned 0; (4) on the child's path to exec, chdir/setuid happen iff configured, before exec, in order, with the configured value, and execve receives exactly the binary, argv = [bin, args.., NULL] and envp = [entries.., NULL] in order (checked in the non-`start` configuration of Command::env).",
+        "note": "Bounded to <= 13 system calls and the listed command shapes (0..1 extra args, 0..2 env entries, no pre-exec closures, Stdio::Null excluded: constant DEV_NULL path is a const fat pointer). Not decided: what the exec'd program observes, the `start`-feature env variant, the no-alloc spawn front end, wait's status semantics (kernel).",
+        "design_ref": "§4.C13",
+    },
     "C12": {
         "category": "fault_enumeration",
         "technique": "Kani on the real operations with a ghost descriptor/mapping table in the stub kernel: frame-condition contract over the table, every syscall symbolically failing or succeeding",
